@@ -324,6 +324,56 @@ fn cmd_replay_beh(a: &Args) {
 	sink.summary(json!({"behaviours": nbeh}));
 }
 
+/// Games far beyond the model's bounds in SIZE (more than 65 535 frames, more than 65 535 items, more than
+/// 255 items in one frame, Gecko lists of hundreds of blocks): counts and offsets that do not fit 8 or 16 bits.
+/// The behaviours are the canonical full-presence histories; the checks are the same as for the model's behaviours.
+fn cmd_scale(a: &Args) {
+	let db = LayoutDb::load(a.req("layout"));
+	let sink = Sink::new(a.get("replay-dir").unwrap_or("work/replays"));
+	let seed = a.num("seed", 1);
+	let checks: Vec<String> = a.req("checks").split(',').map(|s| s.to_string()).collect();
+	let big = a.num("frames", 66_000) as usize;
+	let shapes: Vec<(&str, [u8; 3], Vec<&str>, usize, usize, usize)> = vec![
+		("C", [3, 16, 0], vec!["single", "none", "none", "none"], big, 1, 0),
+		("C", [3, 7, 0], vec!["ic", "single", "none", "none"], 3, 300, 0),
+		("A", [1, 0, 0], vec!["single", "single", "ic", "single"], big / 3, 0, 0),
+		("C", [3, 12, 0], vec!["none", "single", "none", "single"], 2, 1, 300),
+		("B", [2, 2, 0], vec!["none", "none", "none", "single"], big, 0, 0),
+	];
+	let only = a.get("shape").map(|s| s.parse::<usize>().unwrap());
+	for (i, (reg, ver, occ, nf, ni, ng)) in shapes.iter().enumerate() {
+		if only.map_or(false, |o| o != i) {
+			continue;
+		}
+		let beh = fields::simple_beh_gecko(reg, occ, *nf, *ni, *ng);
+		let mut o = GenOpts::new(seed ^ (0x5CA1E + i as u64), *ver);
+		o.plan = 1;
+		let built = gen::build_beh(&db, &beh, &o);
+		sink.count(fnv(&built.bytes), true);
+		sink.sample(|| json!({"regime": reg, "occ": occ, "version": ver, "frames": nf, "items_per_frame": ni, "gecko_blocks": ng, "file_len": built.bytes.len()}));
+		let mut viols = vec![];
+		item_guard("scale", || {
+			let ctx = checks::Ctx::new(&db, &beh, &built);
+			for c in &checks {
+				match c.as_str() {
+					"c01" => ctx.c01_roundtrip(&mut viols),
+					"c04" => ctx.c04_oneshot(&mut viols),
+					"rows" => ctx.rowview(&mut viols),
+					"arrow" => ctx.arrow(&mut viols),
+					"slpp" => ctx.slpp_roundtrip(&[real::Comp::all()[i % 3]], i % 2 == 0, &mut viols),
+					"inc12" => ctx.incremental("c12", stream::Frag::Fixed(4096), &mut viols),
+					other => panic!("unknown check {}", other),
+				}
+			}
+		});
+		for v in &viols {
+			// (the files are large: the replay record holds the recipe, not the bytes)
+			sink.report(v, &|| json!({"scale_shape": i, "regime": reg, "occ": occ, "version": ver, "frames": nf, "items_per_frame": ni, "gecko_blocks": ng, "seed": o.seed}));
+		}
+	}
+	sink.summary(json!({"shapes": shapes.len()}));
+}
+
 /// C08: versions above the ceiling (other majors included) with longer payloads.
 fn cmd_newer(a: &Args) {
 	let db = LayoutDb::load(a.req("layout"));
@@ -415,6 +465,7 @@ fn main() {
 		"session" => session::cmd_session(&a),
 		"edges" => robust::cmd_edges(&a),
 		"newer" => cmd_newer(&a),
+		"scale" => cmd_scale(&a),
 		"fuzz" => robust::cmd_fuzz(&a),
 		"deep-meta" => robust::cmd_deep_meta(&a),
 		"meta-fuzz" => robust::cmd_meta_fuzz(&a),
